@@ -151,6 +151,10 @@ class Jar:
             for robj in list(self.registered):
                 if robj._p_oid in seen:
                     continue
+                if not robj._p_changed and self.store.serial(robj._p_oid) is not None:
+                    # ZODB's Connection._commit: a registered object that no longer says it is changed is not written
+                    # ("it's legal for an object to set _p_changed to false after it's been changed and registered")
+                    continue
                 stack = [robj]
 
                 def pid(o):
